@@ -1238,7 +1238,17 @@ def to_unit(v: Variable, unit, *, copy=True):
         raise UnitError('to_unit on unitless')
     f = R(v.unit.factor_to(unit))
     if v._dtype.name in _INTS:
-        raise C.Unsupported('integer unit conversion (truncates)')
+        # scipp converts integers in integer arithmetic: the result is an integer near x*f (truncation / rounding of the
+        # scaled value; measured: [3,15,20] 1/nm -> [0,1,2] 1/angstrom).  Modelled as an arbitrary integer k with |k - x*f| < 1.
+        def conv(x):
+            exact = x * f
+            if exact.is_const() and exact.const_value().denominator == 1:
+                return exact
+            k = R(T.fresh('intconv', is_int=True))
+            C.CTX.definitions.append((k - exact < 1) & (exact - k < 1))
+            return k
+        res = _map1(conv, v._a)
+        return Variable(_arr=res, dims=v.dims, unit=unit, dtype=v._dtype, _rnd=v._rnd)
     if v.elem == (3, 3):
         raise C.Unsupported('to_unit of matrix')
     res = _map1(lambda x: x * f, v._a)
